@@ -117,6 +117,23 @@ add("C31", "E3-history-bfs", "model_checking",
     "Bound: 6 assertion lists (empty, one, two, contextual tuples incl. conditioned, context structs, one invalid), depth 3 (5 in thorough: all 6^4 abstract states).",
     "explicit-state search over operation histories on the real server against a reference model")
 
+add("C10", "E3-history-bfs", "model_checking",
+    "Every history over {write/delete each pool tuple, cached-mode request vector, HIGHER_CONSISTENCY request vector} up to the depth bound is replayed on a fresh server for hand-picked worlds and cache-flag configurations (query cache, check and list-objects iterator caches, shared iterators, cache controller; default and weighted-graph/pipeline engines; one-hour TTLs): at every HIGHER_CONSISTENCY step Check, BatchCheck, ListObjects and ListUsers must equal the reference for the store contents at that moment.",
+    "Bound: 5 worlds (direct+userset, TTU, exclusion, intersection+wildcard, recursive userset), 3 pool tuples each, histories <=5 events (6 in thorough), 8 flag configurations (all 64 in thorough). Production cache in place; real clock, nothing expires during a history.",
+    "explicit enumeration of operation histories on the real server (replay from the initial state), invariant checked against a reference model at every higher-consistency step")
+add("C11", "E3-history-bfs", "model_checking",
+    "Every history over {write/delete a pool tuple, bulk write of 60 unrelated tuples (more than one changelog page), cached-mode requests, 'inv' = trigger the cache controller and wait for the invalidation run to complete, checked cached-mode requests} is replayed on a fresh server with the cache controller plus either the query cache or the iterator caches, default and weighted-graph engines: a checked request vector that follows an 'inv' which follows the last write must equal the reference for the current store.",
+    "Bound: 5 worlds, 2 toggled tuples (3 in thorough), histories <=5 events (6 in thorough). Completion of an invalidation run is observed through an exported wait on the controller's WaitGroup (overlay file). Real clock: TTL-window straddling and changes older than the iterator TTL need a controllable clock and are NOT decided. Shared iterators (own 10 s admission window) are outside the property's configuration.",
+    "explicit enumeration of operation histories on the real server with a controlled invalidation event, invariant against a reference model")
+add("C12", "E4-sqlfault", "fault_enumeration",
+    "History BFS over Write requests (<=2 deletes, <=2 writes, all 16 on_duplicate/on_missing option pairs incl. bogus values) on memory and SQLite against a map+changelog reference (success <=> reference accepts; contents and changelog equal the reference after every event); on SQLite every statement boundary of the last write is enumerated as fault-before, fault-after, connection loss and crash image (database files copied at the boundary and reopened): the state is entirely before or entirely after the write and an acknowledged write is present.",
+    "Bound: 3 tuple keys x {no condition, cx{x:1}, cx{x:2}, cx without context}, depth 2 (3 in thorough), E4 on 16 histories in quick. Granularity is the statement boundary of openfga's transaction; torn pages / unsynced power loss are SQLite's contract. PostgreSQL/MySQL unavailable offline (shared sqlcommon code exercised through SQLite only).",
+    "explicit-state search over write histories plus exhaustive fault and crash-point enumeration at every SQL statement boundary through a wrapping database/sql driver")
+add("C15", "E3-history-bfs", "model_checking",
+    "BFS over write/delete/mixed-batch histories on both backends, deduplicated by (tuple set, changelog): in every state replaying ReadChanges (page sizes 1 and 50) onto an empty map reproduces Read, the number of changes equals the number of applied items, descending order is the exact reverse, the type filter selects by object type, and horizon offsets 0 / far-future withhold nothing / everything.",
+    "Bound: 3 tuple keys (one conditioned), depth 4 (6 in thorough). Memory horizon straddling is decided only when the read demonstrably fell inside the bracket (wall clock); SQLite's clock cannot be bracketed. Single-writer processes (ULID order under concurrent writers is a known finding).",
+    "explicit-state search over operation histories on the real datastores, replay-equals-state oracle")
+
 NOT_BUILT ="check not built yet in this session; see DESIGN.md §5 for the planned decision procedure"
 NA = {}
 
